@@ -175,3 +175,65 @@ mod test_sm2 {
         assert_eq!(msg, plain);
     }
 }
+
+#[cfg(gm_rs_verif)]
+pub mod verif_hooks {
+    //! Verification builds only: access to crate-private arithmetic, the fixed-base table, and a
+    //! thread-local override / recorder for the candidates of `random_u256`.
+    use crate::u256::U256;
+    use std::cell::RefCell;
+    use std::collections::VecDeque;
+
+    pub use crate::fields::FieldModOperation;
+    pub use crate::fields::fn64;
+    pub use crate::fields::fp64;
+
+    pub fn fp_mont_mul(a: &U256, b: &U256) -> U256 {
+        crate::fields::fp64::mont_mul(a, b)
+    }
+    pub fn fp_to_mont(a: &U256) -> U256 {
+        crate::fields::fp64::fp_to_mont(a)
+    }
+    pub fn fp_from_mont(a: &U256) -> U256 {
+        crate::fields::fp64::fp_from_mont(a)
+    }
+    pub fn precomputed() -> &'static [[U256; 510]; 32] {
+        &crate::sm2p256_table::SM2P256_PRECOMPUTED
+    }
+    pub fn point_from_byte(b: &[u8]) -> crate::error::Sm2Result<crate::p256_ecc::Point> {
+        crate::p256_ecc::Point::from_byte(b)
+    }
+    pub fn to_jacobi(x: &U256, y: &U256) -> crate::p256_ecc::Point {
+        crate::p256_ecc::to_jacobi(x, y)
+    }
+
+    thread_local! {
+        static QUEUE: RefCell<VecDeque<[u8; 32]>> = RefCell::new(VecDeque::new());
+        static LOG: RefCell<Vec<U256>> = RefCell::new(Vec::new());
+    }
+    /// queue a 32-byte candidate that replaces the next RNG output on this thread
+    pub fn push_candidate(c: [u8; 32]) {
+        QUEUE.with(|q| q.borrow_mut().push_back(c));
+    }
+    pub fn clear() {
+        QUEUE.with(|q| q.borrow_mut().clear());
+        LOG.with(|l| l.borrow_mut().clear());
+    }
+    pub fn queued() -> usize {
+        QUEUE.with(|q| q.borrow().len())
+    }
+    /// scalars accepted by `random_u256` on this thread since the last call
+    pub fn take_log() -> Vec<U256> {
+        LOG.with(|l| std::mem::take(&mut *l.borrow_mut()))
+    }
+    pub(crate) fn override_candidate(buf: &mut [u8; 32]) {
+        QUEUE.with(|q| {
+            if let Some(c) = q.borrow_mut().pop_front() {
+                *buf = c;
+            }
+        });
+    }
+    pub(crate) fn record(v: &U256) {
+        LOG.with(|l| l.borrow_mut().push(*v));
+    }
+}
